@@ -8,6 +8,7 @@ pub mod trace {
 //@include air/types.rs
 //@include air/dynamic.rs
 //@include air/public_memory.rs
+//@include air/public_input_binding.rs
 //@include air/diluted.rs
 //@include air/diluted_lemma.rs
 //@include air/periodic.rs
